@@ -32,6 +32,7 @@ type caseWriter struct {
 	samples []map[string]string
 	seen    map[string]bool
 	dups    int
+	capture *[]string // when set, every case written (duplicates included) is also appended here
 }
 
 func hx(s string) string {
@@ -55,6 +56,9 @@ func unhx(s string) string {
 // Case writes one case; fields are already encoded. Duplicate cases are dropped.
 func (c *caseWriter) Case(stream string, fields ...string) {
 	key := stream + "\t" + strings.Join(fields, "\t")
+	if c.capture != nil {
+		*c.capture = append(*c.capture, key)
+	}
 	if c.seen[key] {
 		c.dups++
 		return
@@ -181,6 +185,14 @@ func emit(c *caseWriter, name string, in ...string) {
 	if !ok || d.nin != len(in) {
 		panic("bad stream use: " + name)
 	}
+	if pureStreams[name] && !inReplay && c.capture == nil && len(emitLog) < emitLogCap {
+		var keys []string
+		c.capture = &keys
+		d.exec(c, in)
+		c.capture = nil
+		emitLog = append(emitLog, emitRec{name, append([]string(nil), in...), strings.Join(keys, "\n")})
+		return
+	}
 	d.exec(c, in)
 }
 
@@ -264,6 +276,10 @@ func main() {
 	}
 	c := &caseWriter{w: bufio.NewWriterSize(fh, 1<<20), streams: map[string]int{}, seen: map[string]bool{}}
 	rule, exhaustive, extra := f(c)
+	if len(emitLog) > 0 {
+		replayCheck(c)
+		rule += fmt.Sprintf("; re-execution check: the %d cases of the pure-function streams executed again in the same order, in reverse order and from 32 goroutines at once (shuffled), every written line compared", len(emitLog))
+	}
 	c.w.Flush()
 	fh.Close()
 	st := stats{Evaluations: c.n, Streams: c.streams, Samples: c.samples, Exhaustive: exhaustive, Rule: rule, Duplicates: c.dups, Extra: extra}
